@@ -463,7 +463,7 @@ pub fn law_run(seed: u64, cfg_idx: usize, chunk: u64, samples: usize) -> RunOutc
             class: format!("sampler_z {} (E1 stream)", u.signature().replace("unwind at", "unwinds at")),
             detail: format!("mu={} sigma={} during law sampling", mu, sigma),
             replay: json!({"kind": "law", "cfg": cfg_idx, "chunk": chunk, "samples": samples, "seed": seed}),
-            run: (cfg_idx as u64) << 32 | chunk,
+            run: (1 << 41) + ((cfg_idx as u64) << 16 | chunk),
         });
     }
     for (k, &h) in hist.iter().enumerate() {
@@ -596,7 +596,7 @@ fn evaluate_law(rep: &mut Report) {
                 class: format!("sampler_z output law deviates from D_Z,mu,sigma ({})", what),
                 detail: format!("config {} mu={} sigma={} samples={} chi2={:.1} df={} p={:.3e} z_mean={:.2} z_var={:.2} other={}", ci, mu, sigma, total, chi2, df, p, z_mean, z_var, other),
                 replay: json!({"kind": "law_eval", "cfg": ci, "seed": rep.seed, "tier": rep.tier.name()}),
-                run: ci as u64,
+                run: (1 << 42) + ci as u64,
             });
         };
         if impossible || p < 1e-9 {
@@ -685,7 +685,7 @@ pub fn replay(doc: &Value) -> Option<String> {
             let out = report::parallel_runs(ncfg as u64 * chunks, report::workers(), |i| law_run(seed, (i / chunks) as usize, i % chunks, per));
             rep.absorb(out);
             evaluate_law(&mut rep);
-            rep.violations.iter().find(|v| v.run == cfg && v.class.contains("output law")).map(|v| v.class.clone())
+            rep.violations.iter().find(|v| v.run == (1 << 42) + cfg && v.class.contains("output law")).map(|v| v.class.clone())
         }
         _ => None,
     }
@@ -717,18 +717,36 @@ pub fn corpus(report: &mut Report) {
     }
 }
 
+fn sizes(tier: Tier) -> (u64, usize) {
+    match tier {
+        Tier::Quick => (160u64, 12_000usize),
+        Tier::Thorough => (3200u64, 40_000usize),
+    }
+}
+
+/// one index space: lock-step / building-block runs first, then the law chunks
+fn dispatch(tier: Tier, seed: u64, run: u64) -> RunOutcome {
+    let (runs, calls) = sizes(tier);
+    if run < runs {
+        one_run(seed, run, calls)
+    } else {
+        let (_ncfg, chunks, per) = law_batch(seed, tier);
+        let i = run - runs;
+        law_run(seed, (i / chunks) as usize, i % chunks, per)
+    }
+}
+
+pub fn rerun(tier: Tier, seed: u64, run: u64) -> Option<RunOutcome> {
+    Some(dispatch(tier, seed, run))
+}
+
 pub fn check(tier: Tier, seed: u64) -> i32 {
     let mut rep = Report::new(PROP, tier, seed);
     let w = report::workers();
-    let (runs, calls) = match tier {
-        Tier::Quick => (160u64, 12_000usize),
-        Tier::Thorough => (3200u64, 40_000usize),
-    };
+    let (runs, _calls) = sizes(tier);
     corpus(&mut rep);
-    let out = report::parallel_runs(runs, w, |run| one_run(seed, run, calls));
-    rep.absorb(out);
-    let (ncfg, chunks, per) = law_batch(seed, tier);
-    let out = report::parallel_runs(ncfg as u64 * chunks, w, |i| law_run(seed, (i / chunks) as usize, i % chunks, per));
+    let (ncfg, chunks, _per) = law_batch(seed, tier);
+    let out = report::parallel_runs(runs + ncfg as u64 * chunks, w, |run| dispatch(tier, seed, run));
     rep.absorb(out);
     evaluate_law(&mut rep);
     rep.rule = "a case is one call of sampler_z (through the H4 wrapper) on a simulator-owned byte stream in mode E1 (uniform), E2 (Bernoulli bytes forced to tie with the comparand on 1..7 bytes, then +-1) or E3 (base-sampler bytes at RCDT[i]-1/RCDT[i]/RCDT[i]+1, 0, 2^72-1), judged in lock-step by the reference SamplerZ over the bytes actually consumed; or one call of base_sampler / approx_exp / ber_exp through the wrappers, compared with the reference on integers; or one of the fixed (mu, sigma') law configurations sampled over uniform streams; non-trivial = a faulted stream, a tie of depth >= 2, or a building-block input; distinct = distinct (parameters, consumed bytes)".into();
